@@ -34,6 +34,7 @@ type c20Case struct {
 	Index    *c20IndexC   `json:"index,omitempty"`
 	Manifest *c20ManC     `json:"manifest,omitempty"`
 	Schema   *c20SchemaC  `json:"schema,omitempty"`
+	Strvals  *c20StrvalsC `json:"strvals,omitempty"`
 	Explore  *c20ExploreC `json:"explore,omitempty"`
 }
 
@@ -50,11 +51,11 @@ type c20Obs struct {
 }
 
 func (*c20) ID() string        { return "C20" }
-func (*c20) CoqImport() string { return "From Helm Require Import Values.Tree Misc.Panics Misc.PanicsStorage Misc.PanicsDeps Misc.PanicsIndex Misc.PanicsSort Misc.PanicsSchema Run.RunC20." }
+func (*c20) CoqImport() string { return "From Helm Require Import Values.Tree Misc.Panics Misc.PanicsStorage Misc.PanicsDeps Misc.PanicsIndex Misc.PanicsSort Misc.PanicsSchema Values.Strvals Run.RunC20." }
 func (*c20) Rule() string {
 	return "structured stream (storage records decodable/undecodable/without info x Get/List/Query/ListDeployed/Deployed/Last on Secrets and ConfigMaps; " +
 		"chart trees with null/duplicate/aliased/missing dependencies and import-values items of every YAML type through LoadFiles+ProcessDependencies; " +
-		"index files with null / metadata-less / invalid entries through LoadIndexFile, Get and Merge; manifest heads; subchart value slots) compared with the Coq models, " +
+		"index files with null / metadata-less / invalid entries through LoadIndexFile, Get and Merge; manifest heads; subchart value slots; --set lines around the index and nesting limits) compared with the Coq models, " +
 		"plus an exploration stream of raw and mutated bytes into the real parsers under recover+watchdog; " +
 		"non-trivial = a structured case that contains at least one malformed element (undecodable or info-less record, null/ill-typed entry, missing metadata) " +
 		"or an explore case whose input was rejected with an error or accepted after mutation; distinct = hash of (case, observation)"
@@ -73,6 +74,7 @@ func (*c20) Corpus() []any {
 	out = append(out, c20IndexCorpus()...)
 	out = append(out, c20ManifestCorpus()...)
 	out = append(out, c20SchemaCorpus()...)
+	out = append(out, c20StrvalsCorpus()...)
 	out = append(out, c20ExploreCorpus()...)
 	return out
 }
@@ -97,6 +99,8 @@ func (*c20) Generate(r *rand.Rand, i int) any {
 		return c20Case{Kind: "manifest", Manifest: c20GenManifest(r)}
 	case k < 50:
 		return c20Case{Kind: "schema", Schema: c20GenSchema(r)}
+	case k < 58:
+		return c20Case{Kind: "strvals", Strvals: c20GenStrvals(r)}
 	default:
 		return c20Case{Kind: "explore", Explore: c20GenExplore(r)}
 	}
@@ -156,6 +160,8 @@ func (*c20) execute(c c20Case) any {
 		return c20ExecManifest(c.Manifest)
 	case "schema":
 		return c20ExecSchema(c.Schema)
+	case "strvals":
+		return c20ExecStrvals(c.Strvals)
 	case "explore":
 		if c20UseWorker() {
 			return c20ViaWorker(c.Explore)
@@ -225,6 +231,8 @@ func (*c20) CoqCase(ci, oi any) string {
 		return c20CoqManifest(c.Manifest, obs)
 	case "schema":
 		return c20CoqSchema(c.Schema, obs)
+	case "strvals":
+		return c20CoqStrvals(c.Strvals, obs)
 	}
 	return "CExplore " + c20Cls(obs.Class)
 }
@@ -250,6 +258,8 @@ func (*c20) NonTrivial(ci, oi any) bool {
 		return c.Manifest.malformed()
 	case "schema":
 		return c.Schema.malformed()
+	case "strvals":
+		return c.Strvals.malformed()
 	case "explore":
 		return obs.Class == "err" || c.Explore.Mutations > 0
 	}
